@@ -6,6 +6,14 @@ sys.path.insert(0, ROOT)
 TECH = "bounded symbolic execution of the real Python code (CrossHair 0.0.110) with z3 deciding every path; counterexamples replayed concretely"
 
 CHECKS = {
+    "C05": dict(
+        text="For 2 (thorough 3) competing flows with every specificity vector over 4 match patterns, symbolic action selectors, priorities, event payloads, an optional "
+             "unmentioned parameter, several loop assignments and symbolic tie-break outcomes, every path of the real run_to_completion/_resolve_action_conflicts ends in a state "
+             "explained by some maximal-score winner: identical actions co-advance and the event is emitted once, other fitting flows are stopped, non-fitting flows and flows in "
+             "other loops are untouched; both members of an exact tie are shown to win for some tie-break value (twins).",
+        note="The competitors are parked natively; priority/action selector are written into the flow state by the harness; only the competing event is processed under the engine. "
+             "Priorities are index-selected floats (symbolic reals cost ~5 s solver time per path). Outside: >3 competitors, internal-event competition.",
+        ref="4/C05"),
     "C07": dict(
         text="(a) DNF: for all 1458 and/or formula shapes of depth<=3 (node kinds symbolic) z3 proves, per shape, that the normal form is an or-of-ands of the original "
              "leaves and is equivalent to the formula for ALL 256 truth assignments at once (one solver query per shape, no enumeration of assignments). "
